@@ -103,6 +103,21 @@ def _apply(m, o):
     return a, (lambda: x.apply_formatting(*args, **kw)), ('none' if ip else 'obj'), {'inplace': ip}
 
 
+@op('apply_match')
+def _apply_match(m, o):
+    """apply_formatting_for_match(settings, match, group): logged as an 'apply' event over the span of the group (Python's re
+    is the oracle for the span), so the C06 contract judges it."""
+    x = m.regs[o['r']]
+    sets = build_settings(m.lib, o['sets'])
+    mt = re.search(o['pat'], x.base_str)
+    grp = o.get('group', 0)
+    ip = m.kinds[o['r']] == 'S'
+    if mt is None or mt.start(grp) < 0:
+        return {'S': m.texts.tids(o['S']), 'start': [0], 'end': [0], 'top': 1, 'nomatch': 1}, (lambda: None), 'none', {'inplace': ip, 'rename': 'noop'}
+    a = {'S': m.texts.tids(o['S']), 'start': opt(mt.start(grp)), 'end': opt(mt.end(grp)), 'top': 1, 'nomatch': 0}
+    return a, (lambda: x.apply_formatting_for_match(sets, mt, grp)), ('none' if ip else 'obj'), {'inplace': ip, 'rename': 'apply'}
+
+
 @op('remove')
 def _remove(m, o):
     x = m.regs[o['r']]
@@ -283,7 +298,7 @@ def run(m, o):
         if 'obs_on_fail' in extra:
             obs.update(extra['obs_on_fail']())
     a['inplace'] = b(extra.get('inplace', False))
-    return m.emit(name, r, a, out, res, same, obs, o.get('tag', ''))
+    return m.emit(extra.get('rename', name), r, a, out, res, same, obs, o.get('tag', ''))
 
 
 # ---- function-shaped operations (C15, C18, C19) ----------------------------------------------------
